@@ -177,7 +177,7 @@ def preimport():
 
 SUBS = [
     Sub("episodes", execute, strategy=lambda tier: episode_cases(tier, ALL_ENVS),
-        budget={"quick": 4000, "thorough": 80000}, shards=16),
+        budget={"quick": 6000, "thorough": 80000}, shards=16),
     Sub("rollout", execute_rollout, strategy=lambda tier: episode_cases(tier, ALL_ENVS, sources=("gen",)),
         budget={"quick": 1500, "thorough": 20000}, shards=16),
     Sub("machine", lambda case, ctx: run_history(BatchHarness, case, ctx), machine=machine,
